@@ -3,6 +3,7 @@ from __future__ import annotations
 
 import json
 from collections import Counter
+from fractions import Fraction
 
 from harness import common as C
 from harness import fw
@@ -10,8 +11,8 @@ from harness import fw
 META = {
     "id": "C17",
     "technique": "Coq proof (host LCD model vs firmware LCD model over the mock's DDRAM: refinement by induction on the text, progress-bar arithmetic, backlight/glyph invariants over all histories) + extracted-model correspondence with the real LCD class and with the real transpiled firmware run under the mock core + property oracle firmware-vs-host",
-    "level_text": "Theorems C17_* (coq/Props/C17.v) are proved for all ASCII texts, alignments, clear flags, in-range rows/columns, all histories of guarded calls and all geometries that fit one HD44780 about Gallina models of Displays/LCD.py and of the emitted LCD C++ (helper templates + per-node code, texts as UTF-8 bytes) on the mock LiquidCrystal DDRAM: per-call and per-history refinement (cells, backlight level, glyph table; message with any top/bottom on any display, progress with any value/max_value/width), never-off-row for every call kind on both sides, the four progress-bar laws for every max_value and width argument, the backlight pin invariant over every firmware history, glyph rows; two refutations with witnesses (geometries that alias rows, non-ASCII text) replayed on the real code; three repaired defects (one-row message, progress width <= 0 / max_value <= 0: kind=fixed, their former refutations are now the positive theorems C17_message_one_row, C17_progress_same_bar, C17_progress_bar_within_one, their witnesses are replayed on every run and reported as VIOLATION if they fail again); the style/alignment tables of host, parser and emitter are regenerated from the source (Gen/LcdTables.v) and proved to agree. Both models are run against the real LCD object and the real parse+emit output compiled with g++ on generated op sequences (geometry sweep 1..40 x 1..4, both wirings), and the property relation is evaluated directly firmware-vs-host.",
-    "level_note": "Trusted: Coq kernel, extraction, OCaml driver, mock Arduino core + mock LiquidCrystal/LiquidCrystal_I2C as the definition of 'device', g++, CPython. The theorems are about the models; the correspondence bounds their distance from LCD.py / emitter.py / parser.py. Text inside the guard is ASCII; binary64 noise at exact .5 ties of the progress ratio is outside the model.",
+    "level_text": "Theorems C17_* (coq/Props/C17.v) are proved for all ASCII texts, alignments, clear flags, in-range rows/columns, all histories of guarded calls and all geometries that fit one HD44780 about Gallina models of Displays/LCD.py and of the emitted LCD C++ (helper templates + per-node code, texts as UTF-8 bytes) on the mock LiquidCrystal DDRAM: per-call and per-history refinement (cells, backlight level, glyph table; message with any top/bottom on any display, progress with any value/max_value/width), never-off-row for every call kind on both sides, the four progress-bar laws for every max_value and width argument - both for the exact-rational rounding and for the binary64 arithmetic CPython really executes (Host/LCDFloat.v: fl53 = nearest binary64 number with its 2^-53 relative error bound proved, hfilled_fl; C17_progress_float_exact / _within_one / _saturates for every value and max_value and every bar width 1..40, _monotone_partial and _faithful_partial (equal to the exact rounding off the .5 ties) for max_value < 2^45, C17_progress_refines_float for whole calls) -, the backlight pin invariant over every firmware history, glyph rows; two refutations with witnesses (geometries that alias rows, non-ASCII text) replayed on the real code; three repaired defects (one-row message, progress width <= 0 / max_value <= 0: kind=fixed, their former refutations are now the positive theorems C17_message_one_row, C17_progress_same_bar, C17_progress_bar_within_one, their witnesses are replayed on every run and reported as VIOLATION if they fail again); the style/alignment tables of host, parser and emitter are regenerated from the source (Gen/LcdTables.v) and proved to agree. Both models are run against the real LCD object and the real parse+emit output compiled with g++ on generated op sequences (geometry sweep 1..40 x 1..4, both wirings), and the property relation is evaluated directly firmware-vs-host.",
+    "level_note": "Trusted: Coq kernel, extraction, OCaml driver, mock Arduino core + mock LiquidCrystal/LiquidCrystal_I2C as the definition of 'device', g++, CPython. The theorems are about the models; the correspondence bounds their distance from LCD.py / emitter.py / parser.py. Text inside the guard is ASCII; the binary64 model has an unbounded exponent and exact int->float conversion, i.e. it is IEEE-754 for |value|, max_value < 2^53 (measured against CPython's float division and against LCD.progress on the grid).",
     "design_ref": "DESIGN.md section 4 C17",
 }
 
@@ -568,8 +569,6 @@ def host_model_compare(ctx, cid, g, ops, hm, hi):
         ctx.disagree("host ctor: model accepts, LCD() raises", {"id": cid, "geom": g}, hm, hi["ctor"])
         return
     for j, (op, m, r) in enumerate(zip(ops, hm[1:], hi["steps"])):
-        if op[0] == "progress" and progress_float_tie_noise(op[2], op[3], op[4], g[0]):
-            return          # binary64 noise at an exact tie: outside the Q model from here on
         st = {"ok": 0, "ValueError": 1, "RuntimeError": 2}.get(r["st"], -1)
         mbuf = ["".join(chr(c) for c in row) for row in m[1]]
         mg = {str(s): list(v) for s, v in m[5]}
@@ -780,6 +779,164 @@ def progress_scan(ctx, cid, g, ops, hi, fwp):
             ctx.fail(f"{name} progress bar is not monotone in value", {"id": cid, "geom": g, "ops": ops}, "non-decreasing", seq, key="monotone-" + name)
 
 
+
+# --------------------------------------------------------------------------------------
+# progress grid: the real host class on every bar width 1..40 x every max_value up to a bound
+# x every value -1..max+1 (host calls are cheap), the laws evaluated against the firmware's
+# integer arithmetic; every suspicious triple is then run on the REAL firmware (one call on a
+# fresh display) and only a firmware-vs-host difference is reported.
+# --------------------------------------------------------------------------------------
+GRID_SPECIAL_M = [255, 256, 1000, 1023, 1024, 4095, 9999, 32767]
+GRID_SCALES = [1, 2, 3, 7, 13, 25, 64, 1000]
+
+
+def dev_formula(v, m, tw):
+    """static_cast<long>(value) * width / max_value after the helper's clamps"""
+    if m <= 0:
+        return 0
+    return min(max(v, 0), m) * tw // m
+
+
+def grid_entries(rng, thorough):
+    """[cols, width|None, max_value, [values], label|None, style] - see harness/impl/c17_impl.py"""
+    out = []
+    M = 320 if thorough else 128
+
+    def route(w, k):
+        # the bar width w arises as the display width (width=None), as width=w on a wider
+        # display, as an over-wide width on a w-column display, and next to a label
+        k %= 4
+        if k == 0:
+            return [w, None, None]
+        if k == 1:
+            return [min(40, w + 1 + (w % 5)), w, None]
+        if k == 2:
+            return [w, w + 3, None]
+        lab = "ab"[: 1 + w % 2]
+        return [min(40, w + len(lab) + 1), w, lab] if w + len(lab) + 1 <= 40 else [w, None, None]
+
+    for w in range(1, 41):
+        for m in range(1, M + 1):
+            ks = range(4) if (thorough and m <= 64) else [w + m]
+            for k in ks:
+                cols, width, lab = route(w, k)
+                out.append([cols, width, m, list(range(-1, m + 2)), lab, STYLES[(w + m + k) % 4]])
+        for m in GRID_SPECIAL_M:
+            cols, width, lab = route(w, m)
+            if m <= 1024:
+                vals = list(range(-1, m + 2))
+            else:
+                vals = sorted(set([-1, 0, 1, m // 2, m - 1, m, m + 1] + [rng.randint(0, m) for _ in range(120)]
+                                  + [m * j // w for j in range(w + 1)] + [m * j // w + 1 for j in range(w)]))
+            out.append([cols, width, m, vals, lab, STYLES[(w + m) % 4]])
+        # every exact multiple: value/max_value = j/w for every j, in several spellings of the fraction
+        for f in GRID_SCALES:
+            for k in range(4):
+                cols, width, lab = route(w, k)
+                out.append([cols, width, w * f, [j * f for j in range(w + 1)], lab, STYLES[(w + f + k) % 4]])
+        # degenerate max_value: empty bar on both sides
+        for m in (0, -1, -7):
+            cols, width, lab = route(w, m)
+            out.append([cols, width, m, [-3, 0, 1, 5, 100], lab, STYLES[w % 4]])
+    return out
+
+
+def grid_op(entry, v):
+    cols, width, m, _, lab, style = entry
+    return [cols, 1, False, None], ["progress", 0, v, m, width, style, lab]
+
+
+def confirm_on_firmware(ctx, cands, dist):
+    """cands: [(geom, ops)] -> run each alone on the real firmware + real host and evaluate the property
+    relation; a confirmed failure is reported with exactly that case as the replay"""
+    if not cands:
+        return
+    hres = C.run_impl("c17_impl.py", {"cases": [{"geom": g, "ops": ops} for g, ops in cands]})
+    bs = []
+    for i in range(0, len(cands), 6):
+        b = ScriptBuilder("setup")
+        for g, ops in cands[i:i + 6]:
+            b.add_lcd("grid", g, ops, [False] * len(ops))
+        bs.append(b)
+    fres = run_firmware(bs)
+    for i, (g, ops) in enumerate(cands):
+        parsed, prob = fres[i // 6]
+        if prob:
+            ctx.disagree("grid candidate: firmware could not be produced/run: " + prob, {"geom": g, "ops": ops}, None, None)
+            continue
+        dist["grid:confirmed-on-firmware"] += 1
+        n0 = len(ctx.failures)
+        oracle(ctx, "grid", g, ops, hres[i], parsed[i % 6])
+        if len(ops) > 1:
+            progress_scan(ctx, "grid", g, ops, hres[i], parsed[i % 6])
+        if len(ctx.failures) == n0:
+            # the host deviates from the firmware's documented arithmetic, the real firmware agrees
+            # with the host: the device model is what no longer matches
+            ctx.disagree("progress grid: host differs from integer arithmetic, real firmware agrees with the host",
+                         {"geom": g, "ops": ops}, None, [st["buf"] for st in hres[i]["steps"]])
+
+
+def host_grid(ctx, dist, thorough):
+    rng = ctx.rng
+    entries = grid_entries(rng, thorough)
+    res = C.run_impl("c17_impl.py", {"grid": entries}, timeout=1800)
+    cands, seen = [], Counter()
+    triples = []            # (v, m, tw, host filled) for the model correspondence
+    n_calls = n_exact = 0
+
+    def cand(key, entry, vs):
+        if seen[key] < 4:
+            seen[key] += 1
+            g, _ = grid_op(entry, 0)
+            cands.append((g, [grid_op(entry, v)[1] for v in vs]))
+
+    for e, r in zip(entries, res):
+        cols, width, m, vals, lab, style = e
+        tw = bar_width(cols, width)
+        prev = None
+        for v, hf in zip(vals, r):
+            n_calls += 1
+            if not isinstance(hf, int):
+                cand("shape", e, [v])
+                prev = None
+                continue
+            df = dev_formula(v, m, tw)
+            ex = divides(m, v * tw)
+            n_exact += ex
+            if ((v <= 0 or m <= 0) and hf != 0) or (0 < m <= v and hf != tw):
+                cand("saturate", e, [v])
+            elif abs(hf - df) > 1:
+                cand("within-one", e, [v])
+            elif ex and hf != df:
+                cand("exact", e, [v])
+            if prev is not None and prev[1] > hf:
+                cand("monotone", e, [prev[0], v])
+            prev = (v, hf)
+            if m > 0 and (ex or (v * 7 + m * 3 + tw) % 97 == 0):
+                triples.append((v, m, tw, hf))
+    dist["grid:host-calls"] = n_calls
+    dist["grid:exact-multiple-calls"] = n_exact
+    dist["grid:bar-widths"] = len({bar_width(e[0], e[1]) for e in entries})
+    dist["grid:candidates"] = len(cands)
+    confirm_on_firmware(ctx, cands, dist)
+    # ---- the binary64 model (hfilled_fl) against what the real class drew, on every exact multiple of the
+    #      grid (deduplicated by the fraction) and a deterministic 1% of the rest
+    if ctx.exe:
+        uniq = {}
+        for v, m, tw, hf in triples:
+            uniq.setdefault((v, m, tw), hf)
+        keys = sorted(uniq)
+        if len(keys) > (60000 if thorough else 9000):
+            keys = rng.sample(keys, 60000 if thorough else 9000)
+        pr = ctx.model([[2, v, m, tw] for v, m, tw in keys])
+        bad = 0
+        for (v, m, tw), r in zip(keys, pr):
+            if r[3] != uniq[(v, m, tw)] and bad < 5:
+                bad += 1
+                ctx.disagree("binary64 model hfilled_fl vs the bar LCD.progress drew", {"value": v, "max_value": m, "width": tw}, r[3], uniq[(v, m, tw)])
+        dist["grid:model-calls"] = len(keys)
+    return n_calls
+
 # --------------------------------------------------------------------------------------
 
 def run(ctx: C.Ctx):
@@ -829,6 +986,27 @@ def run(ctx: C.Ctx):
         vals = sorted(set(list(range(-2, min(max(m, 3), 24) + 3)) + [m - 1, m, m + 1, m + 2, m // 2]))
         row = rng.randrange(r)
         add("scan", g, [["progress", row, v, m, w, style, label] for v in vals], "setup", 0.3)
+    # ---- exact-multiple grid on the REAL firmware: every bar width 1..40, every filled length 0..w
+    #      (value/max_value = j/w in a random spelling j*f / w*f), the four ways a bar width arises
+    for w in range(1, 41):
+        f = rng.choice(GRID_SCALES[:6] + [rng.randint(1, 9)])
+        k = rng.randrange(4) if not thorough else w % 4
+        lab = None
+        if k == 0:
+            c, width = w, None
+        elif k == 1:
+            c, width = min(40, w + 1 + (w % 5)), w
+        elif k == 2:
+            c, width = w, w + 3
+        else:
+            lab = "ab"[: 1 + w % 2]
+            c, width = (min(40, w + len(lab) + 1), w) if w + len(lab) + 1 <= 40 else (w, None)
+            lab = lab if c > w else None
+        r = rng.randint(1, 2) if c > 20 else rng.randint(1, 4)
+        g = (c, r, rng.random() < 0.5, None)
+        row = rng.randrange(r)
+        style = rng.choice(STYLES)
+        add("grid", g, [["progress", row, j * f, w * f, width, style, lab] for j in range(w + 1)], "setup", 0.2)
     # ---- backlight histories on the three wirings (parallel + pin, I2C backpack, parallel without pin)
     for i in range(24 if thorough else 6):
         wiring = i % 3
@@ -888,7 +1066,7 @@ def run(ctx: C.Ctx):
 
     # ---- batch the cases into sketches (a backlight pin number identifies one LCD inside a sketch)
     builders, where = [], {}
-    per = {"sweep": 4, "seq": 8, "scan": 6, "wild": 8, "bl": 3}
+    per = {"sweep": 4, "seq": 8, "scan": 6, "wild": 8, "bl": 3, "grid": 6}
     open_b = {}
     for ci, c in enumerate(cases):
         ops = c.get("dev_ops", c["ops"])
@@ -912,6 +1090,7 @@ def run(ctx: C.Ctx):
     fres = run_firmware(builders)
 
     n_oracle = n_corr_h = n_corr_d = 0
+    regress = []            # (failure record, geom, single op): try to report the failing call alone
     nontrivial = set()
     untranspiled = []
     unrun = []
@@ -943,10 +1122,17 @@ def run(ctx: C.Ctx):
         if ctx.exe:
             device_model_compare(ctx, c["id"], g, dev_ops, dmod[ci], fwp)
             n_corr_d += len(dev_ops)
-        if c["kind"] in ("sweep", "seq", "scan", "bl") and all(c["guard"]) or c["kind"] == "scan":
-            if c["kind"] == "scan":
+        if c["kind"] in ("sweep", "seq", "scan", "bl", "grid") and all(c["guard"]) or c["kind"] in ("scan", "grid"):
+            if c["kind"] in ("scan", "grid"):
                 progress_scan(ctx, c["id"], g, ops, hres[ci], fwp)
+            n0 = len(ctx.failures)
             oracle(ctx, c["id"], g, ops, hres[ci], fwp)
+            if c["kind"] in ("scan", "grid"):
+                # a bar depends on nothing but its own call: report the failing call alone when it fails alone
+                for f in ctx.failures[n0:]:
+                    fops = f["case"].get("ops") or []
+                    if len(fops) > 1 and f["key"] in ("exact", "within-one", "saturate", "bar-shape"):
+                        regress.append((f, list(g), [fops[-1]]))
             n_oracle += len(ops)
             for op in ops:
                 nontrivial.add(json.dumps([g, op]))
@@ -957,6 +1143,17 @@ def run(ctx: C.Ctx):
                     dist["oracle:progress-width<=0"] += 1
                 if op[0] == "progress" and op[3] <= 0:
                     dist["oracle:progress-max<=0"] += 1
+
+    for f, g1, ops1 in regress[:8]:
+        probe = C.Ctx("C17", ctx.tier, ctx.seed)
+        probe.findings = []
+        confirm_on_firmware(probe, [(g1, ops1)], Counter())
+        hit = [p for p in probe.failures if p["key"] == f["key"]]
+        if hit:
+            f.update({"what": hit[0]["what"], "case": hit[0]["case"], "expected": hit[0]["expected"], "observed": hit[0]["observed"]})
+
+    # ---- progress grid on the real host class (exhaustive over bar widths x max_value x value)
+    n_grid = host_grid(ctx, dist, thorough)
 
     # ---- a batch of guarded calls that did not transpile: find the call (each one alone in a script);
     #      an in-range call the host accepts and the transpiler rejects leaves nothing on the display
@@ -1021,27 +1218,55 @@ def run(ctx: C.Ctx):
             m = rng.choice([1, 2, 3, 4, 6, 7, 10, 16, 40, 100, 255, rng.randint(1, 400), 0, -1, -rng.randint(2, 400)])
             w = rng.randint(1, 40)
             v = rng.choice([-1, 0, 1, m // 2, m - 1, m, m + 1, rng.randint(0, max(m, 5))])
-            if not progress_float_tie_noise(v, m, w, 40):
-                pc.append((v, m, w))
+            pc.append((v, m, w))
+        # large operands (still exact as binary64): the float model is claimed for |value|, max_value < 2^53
+        for _ in range(600 if thorough else 120):
+            m = rng.choice([10 ** 6, 2 ** 31 - 1, 2 ** 40 + 1, 2 ** 53 - 1, rng.randint(1, 2 ** 53 - 1)])
+            w = rng.randint(1, 40)
+            j = rng.randint(0, w)
+            v = rng.choice([m * j // w, m * j // w + 1, rng.randint(0, m), (2 * j + 1) * m // (2 * w)])
+            pc.append((v, m, w))
         pr = ctx.model([[2, v, m, w] for v, m, w in pc])
+        n_tie = n_tie_noise = 0
         for (v, m, w), r in zip(pc, pr):
             hf = int(round((0 if m <= 0 else max(0.0, min(1.0, float(v) / float(m)))) * w))
             df = 0 if m <= 0 else min(max(v, 0), m) * w // m
-            if r[1] != hf or r[2] != df:
-                ctx.disagree("hfilled/dfilled vs round()/integer division", [v, m, w], r, [hf, df])
+            cv = min(max(v, 0), m)
+            tie = m > 0 and (2 * cv * w) % (2 * m) == m
+            n_tie += tie
+            n_tie_noise += progress_float_tie_noise(v, m, w, 40)
+            hq = 0 if m <= 0 else int(round(Fraction(cv * w, m)))
+            if r[3] != hf or r[2] != df or r[1] != hq or bool(r[4]) != tie:
+                ctx.disagree("hfilled_fl/dfilled/hfilled/ptie vs binary64 round()/integer division/exact round()/tie", [v, m, w], r, [hq, df, hf, tie])
+            if not tie and m * w < 2 ** 51 and hf != hq:
+                ctx.disagree("binary64 round() differs from the exact rounding off a .5 tie (contradicts C17_progress_float_faithful)", [v, m, w], hq, hf)
+        dist["pure:ties"] = n_tie
+        dist["pure:ties-where-binary64-differs"] = n_tie_noise
+        # fl53 itself against CPython's correctly rounded float division
+        fq = []
+        for _ in range(3000 if thorough else 500):
+            a = rng.choice([rng.randint(1, 400), rng.randint(1, 2 ** 53 - 1), rng.randint(1, 10 ** 6)]) * rng.choice([1, 1, -1])
+            b = rng.choice([rng.randint(1, 400), rng.randint(1, 2 ** 53 - 1), 3, 7, 10, 22, 23, 26, 39])
+            fq.append((a, b))
+        fr = ctx.model([[4, a, b] for a, b in fq])
+        for (a, b), r in zip(fq, fr):
+            want = Fraction(float(a) / float(b))
+            if Fraction(r[1], r[2]) != want:
+                ctx.disagree("fl53 vs CPython float division", [a, b], [r[1], r[2]], [want.numerator, want.denominator])
+        dist["pure:fl53-calls"] = len(fq)
 
-    n_ops = sum(len(c["ops"]) for c in cases)
+    n_ops = sum(len(c["ops"]) for c in cases) + n_grid
     ctx.coverage.update({
         "evaluations": n_ops,
         "distinct_nontrivial": len(nontrivial),
-        "rule": "sweep: for every geometry that fits one HD44780 (cols 1..40 x rows 1..4 with rows<=2 or cols<=20; all of them in the thorough tier, a boundary sample in quick) and both wirings, single write/line/message/clear calls at columns 0, cols//2, cols-1 with text length classes empty/shorter/equal/longer, all alignments and clear flags, executed back to back on one display; seq: seeded random sequences of <= 8 guarded ops (message bottoms also on one-row displays, progress also with width <= 0 / > cols and max_value <= 0), one op per loop() pass so the mock dumps the matrix after every op; scan: progress with value = -2..max+2 at fixed max/width (max also 0, -1, -10; width also 0, -3, cols+2); bl: histories of 36 (quick) / 60 (thorough) display/backlight/brightness calls (plus glyph and line calls) on the three wirings (parallel with backlight pin, I2C backpack, parallel without pin); wild: out-of-range arguments and oversized geometries (correspondence only). ~30% of the calls pass row/col/value/max/width/level/slot/flags as run-time values (analog_read). distinct non-trivial = distinct (geometry, wiring, call) pairs evaluated by the firmware-vs-host oracle.",
+        "rule": "sweep: for every geometry that fits one HD44780 (cols 1..40 x rows 1..4 with rows<=2 or cols<=20; all of them in the thorough tier, a boundary sample in quick) and both wirings, single write/line/message/clear calls at columns 0, cols//2, cols-1 with text length classes empty/shorter/equal/longer, all alignments and clear flags, executed back to back on one display; seq: seeded random sequences of <= 8 guarded ops (message bottoms also on one-row displays, progress also with width <= 0 / > cols and max_value <= 0), one op per loop() pass so the mock dumps the matrix after every op; scan: progress with value = -2..max+2 at fixed max/width (max also 0, -1, -10; width also 0, -3, cols+2); bl: histories of 36 (quick) / 60 (thorough) display/backlight/brightness calls (plus glyph and line calls) on the three wirings (parallel with backlight pin, I2C backpack, parallel without pin); grid (firmware): for every bar width w = 1..40 one display (the width arising as cols, as width=w on a wider display, as an over-wide width=, or next to a label) with progress(j*f, w*f) for every filled length j = 0..w, run on the real firmware and the real host; grid (host): the real LCD class on every bar width 1..40 x every max_value 1..128 (quick) / 1..320 (thorough) plus 255, 256, 1000, 1023, 1024, 4095, 9999, 32767 and 0, -1, -7 x every value -1..max+1, and every fraction j/w in eight spellings - saturation and monotonicity evaluated directly, exactness and the one-cell tolerance against value*width/max_value in integers; every suspicious call is then run alone on the real firmware and reported only if firmware and host really differ (the replay is that single call); the binary64 model hfilled_fl is compared with what the class drew on every exact multiple of the grid and 1% of the rest; wild: out-of-range arguments and oversized geometries (correspondence only). ~30% of the calls pass row/col/value/max/width/level/slot/flags as run-time values (analog_read). distinct non-trivial = distinct (geometry, wiring, call) pairs evaluated by the firmware-vs-host oracle.",
         "samples": [{"geom": c["geom"], "ops": c["ops"][:2]} for c in (cases[0], cases[len(cases) // 2], cases[-1])],
         "distribution": dict(dist, sketches=len(builders), cases=len(cases), host_model_calls=n_corr_h, device_model_calls=n_corr_d,
                              oracle_calls=n_oracle, run_time_arg_calls=sum(sum(c["rts"]) for c in cases)),
         "exhaustive": False,
         "guard": "geometry fits one HD44780 (rows <= 2 or cols <= 20); row/col in range; ASCII text (F-C17-non-ascii); message with any top/bottom on any display and progress with any max_value (also <= 0) and any width (also <= 0, > cols) are inside the guard since the repair of F-C17-message-one-row / F-C17-progress-width / F-C17-progress-max; brightness 0..255 on a parallel LCD with backlight pin; glyph slot 0..7 with 8 rows (outside: F-C17-* findings / calls the property does not quantify over)",
         "unmodelled": ["which glyph the HD44780 character ROM shows for a byte >= 128 (cells are compared as byte values; U+2588 / 0xFF identified)",
-                       "binary64 rounding of ratio*width at exact .5 ties of the progress bar (the model rounds the exact rational; such calls are excluded from the host correspondence, not from the oracle)",
+                       "progress with |value| or max_value >= 2^53 (float() of the int rounds / overflows) and binary64 overflow or subnormals: fl53 has an unbounded exponent",
                        "float/str()-converted arguments (text given as numbers, float rows/values)", "C int overflow (16-bit AVR)",
                        "LCD.animate/tick (property C18)", "display on/off has no effect on the cell matrix in the mock"],
         "trusted_base": C.COMMON_TRUSTED + ["mock/LiquidCrystal.h, mock/LiquidCrystal_I2C.h, mock/mock_core.cpp (DDRAM, row offsets, row clamp of both libraries) as the definition of 'device'",
